@@ -1,0 +1,75 @@
+//! Verification hooks (feature `verif`): a thread-local event log and plain-data
+//! dumps of internal structures. Read-only; nothing here influences behaviour.
+#![allow(missing_docs)]
+
+use std::cell::RefCell;
+
+/// An event recorded at a point where the builder's behaviour depends on the
+/// iteration order of a hash container or on the user-supplied heuristic.
+#[derive(Clone, Debug, PartialEq, Eq)]
+pub enum VerifEvent {
+    /// The main toposort emitted this state.
+    Topo(usize),
+    /// `make_constraints_unique(state)` is about to fuse these transitions.
+    Group(usize, Vec<usize>),
+    /// The determinisation heuristic is about to be asked at this state.
+    DetAsk(usize),
+    /// The determinisation heuristic answered yes at this state.
+    DetYes(usize),
+    /// The merge toposort emitted this node.
+    MergeTopo(usize),
+    /// `find_mergeable_nodes(node)` returned this vector.
+    Merge(usize, Vec<usize>),
+    /// End of one iteration of the main loop (after `try_merge_new_nodes`).
+    IterEnd(usize),
+    /// A textual snapshot (only when snapshots are enabled).
+    Snapshot(String, String),
+}
+
+thread_local! {
+    static LOG: RefCell<Vec<VerifEvent>> = const { RefCell::new(Vec::new()) };
+    static SNAPSHOTS: RefCell<bool> = const { RefCell::new(false) };
+}
+
+/// Append an event to the thread-local log.
+pub fn log(event: VerifEvent) {
+    LOG.with(|l| l.borrow_mut().push(event));
+}
+
+/// Take (and clear) the thread-local log.
+pub fn take_log() -> Vec<VerifEvent> {
+    LOG.with(|l| std::mem::take(&mut *l.borrow_mut()))
+}
+
+/// Enable or disable snapshots.
+pub fn set_snapshots(on: bool) {
+    SNAPSHOTS.with(|s| *s.borrow_mut() = on);
+}
+
+/// Whether snapshots are enabled.
+pub fn snapshots() -> bool {
+    SNAPSHOTS.with(|s| *s.borrow())
+}
+
+/// Plain-data dump of one automaton state.
+#[derive(Clone, Debug, PartialEq, Eq)]
+pub struct StateDump {
+    pub id: usize,
+    pub deterministic: bool,
+    /// Accepted patterns with their key lists, in map iteration order.
+    pub matches: Vec<(usize, Vec<String>)>,
+    pub scope: Vec<String>,
+    pub constraint_order: Vec<usize>,
+    pub epsilon_order: Vec<usize>,
+    /// Outgoing `(edge id, target, rendered constraint)` in adjacency order.
+    pub out_edges: Vec<(usize, usize, Option<String>)>,
+    /// Incoming `(edge id, source)` in adjacency order.
+    pub in_edges: Vec<(usize, usize)>,
+}
+
+/// Plain-data dump of an automaton.
+#[derive(Clone, Debug, PartialEq, Eq)]
+pub struct AutomatonDump {
+    pub root: usize,
+    pub states: Vec<StateDump>,
+}
